@@ -129,6 +129,7 @@ PROBES = [(1, 0), (0.5, 0), (-0.5, 0), (0.25, 0), (-0.25, 0), (0, 0), (1, -0.5),
 
 def run(ctx):
     repo = ctx.repo
+    _phased_x_export(ctx, repo)
     ctx.decided += [
         'C19.a emitted QASM of the table-defined gate families == gate matrix up to global phase (probe exponents/shifts; qelib1 semantics held in the checker)',
         'C19.b every mnemonic in every _qasm_ format string exists in qelib1/stdgates with that parameter and operand count; operands distinct; angles printed as half turns',
@@ -740,3 +741,81 @@ def _measure_bit_positions(ctx, repo):
                    f'`{ast.unparse(c)[:80]}`: the register index is not the position of the measured qubit in the operation', ci.mod.rel, c.lineno)
     if k == 0:
         raise AnalysisError('MeasurementGate._qasm_: no measure statement found')
+
+
+def _phased_x_export(ctx, repo):
+    """C19.i - PhasedXPowGate._qasm_ == Z^p X^e Z^-p up to phase on a grid of (exponent, phase exponent)."""
+    ctx.decided.append('C19.i PhasedXPowGate._qasm_ (u2 / u3 forms, and any delegation to the export of another library gate) is Z^p X^e Z^-p up to global phase on a grid incl. whole and half '
+                       'phase exponents')
+    ctx.rule('C19.i', 'PhasedXPowGate export: interpreting _qasm_ for exponents e and phase exponents p on a grid (p incl. 0, +-0.5, 1, e incl. +-0.5, 1, fractional), the emitted statements '
+             'read with the qelib1 definitions multiply to Z^p X^e Z^-p up to global phase; a delegation cirq.qasm(<library gate>(...)) is followed into that gate\'s own _qasm_', floor=40, style='FDX')
+    ci = repo.cls('cirq.ops.phased_x_gate.PhasedXPowGate')
+    fn = ci.methods.get('_qasm_')
+    if fn is None:
+        raise AnalysisError('PhasedXPowGate._qasm_ vanished')
+
+    def fmt(template, *vals):
+        def sub(mo):
+            idx, spec = int(mo.group(1)), mo.group(2)
+            v = vals[idx]
+            if spec == 'half_turns':
+                return f'pi*{float(v)!r}'
+            if spec:
+                raise fdx.Unsupported(f'format spec {spec}')
+            return str(v)
+        return re.sub(r'\{(\d+)(?::(\w+))?\}', sub, template)
+    args = {'format': fmt, 'validate_version': lambda *a: None, 'version': '2.0', 'precision': 10}
+    X_ = np.array([[0, 1], [1, 0]], dtype=complex)
+
+    def xpow(e):
+        return np.array([[1, 0], [0, 1]], dtype=complex) * (1 + np.exp(1j * np.pi * e)) / 2 + X_ * (1 - np.exp(1j * np.pi * e)) / 2
+
+    def zpow(t):
+        return np.diag([1, np.exp(1j * np.pi * t)])
+    n = 0
+    for e in (0.5, -0.5, 1.0, 0.3, -0.7, 1.5, 0.25, 2.0, 0.0):
+        for p in (0.0, 0.5, -0.5, 1.0, 0.25, 0.3, -0.8):
+            self_obj = {'_exponent': e, 'exponent': e, '_phase_exponent': p, 'phase_exponent': p, '_global_shift': 0.0, 'global_shift': 0.0}
+
+            def call_hook(call, it):
+                s = ast.unparse(call.func)
+                if s.endswith('is_parameterized') or s.endswith('_is_parameterized_'):
+                    return False
+                if s.endswith('canonicalize_half_turns'):
+                    h = float(it.ev(call.args[0])) % 2
+                    return h - 2 if h > 1 else h
+                if s == 'cast' and len(call.args) == 2:
+                    return it.ev(call.args[1])
+                if s.split('.')[-1] == 'qasm' and call.args and isinstance(call.args[0], ast.Call):
+                    inner = call.args[0]
+                    tgt = repo.resolve_in_func(ci.mod, fn, dotted(inner.func) or '')
+                    sub_fn = repo.find_method(tgt, '_qasm_') if tgt is not None and hasattr(tgt, 'methods') else None
+                    if sub_fn is None:
+                        raise fdx.Unsupported(f'delegation to {ast.unparse(inner.func)} cannot be followed')
+                    kws = {k.arg: it.ev(k.value) for k in inner.keywords}
+                    pos = [it.ev(a_) for a_ in inner.args]
+                    ex_ = kws.get('exponent', pos[0] if pos else 1.0)
+                    sh_ = kws.get('global_shift', 0.0)
+                    return _emit(sub_fn[1], ex_, sh_, 1)
+                return NotImplemented
+            it = fdx.NumInterp({'self': self_obj, 'args': args, 'qubits': ('q0',)}, call_hook=call_hook)
+            try:
+                text = it.call(fn)
+            except (fdx.Unsupported, fdx.Raised) as ex:
+                raise AnalysisError(f'cannot interpret PhasedXPowGate._qasm_: {ex}')
+            if text is None:
+                continue
+            n += 1
+            try:
+                v = _qasm_unitary(text, 1)
+            except ValueError as ex:
+                ctx.ob('C19.i', f'{ci.qual}._qasm_:e={e}:p={p}', False, f'unreadable export: {ex}', ci.mod.rel, fn.lineno, construct=f'{ci.qual}._qasm_')
+                continue
+            u = zpow(p) @ xpow(e) @ zpow(-p)
+            ov = abs(np.trace(u.conj().T @ v)) / 2
+            ok = abs(ov - 1) < 1e-9
+            ctx.ob('C19.i', f'{ci.qual}._qasm_:e={e}:p={p}', ok, '' if ok else
+                   f'PhasedXPowGate(exponent={e}, phase_exponent={p}) is exported as `{text.strip()}`, which is not Z^{p} X^{e} Z^-{p} up to phase (overlap {ov:.4f})', ci.mod.rel, fn.lineno,
+                   construct=f'{ci.qual}._qasm_')
+    if n == 0:
+        raise AnalysisError('PhasedXPowGate._qasm_ declines every probe')
